@@ -18,7 +18,7 @@ EXPLANATION = (
     "option occurs both in PIKA_COMMANDLINE_OPTIONS and on the command line.")
 ASSUMPTIONS = ["program_options::variables_map::count(k) > 0 iff option k was given", "${ENV:default} placeholders in the default ini are expanded by the ini module from the environment"]
 THOROUGH_CONFIGS = [["-UNDEBUG", "-DPIKA_DEBUG"]]
-FLOORS = {"C16.R1": 11, "C16.R2": 10, "C16.R3": 8, "C16.R4": 3, "C16.R6": 1, "C16.R7": 1, "C16.R8": 1, "C16.R9": 8}
+FLOORS = {"C16.R1": 11, "C16.R2": 10, "C16.R3": 8, "C16.R4": 3, "C16.R6": 1, "C16.R7": 1, "C16.R8": 1, "C16.R9": 8, "C16.R10": 1}
 
 SETTINGS = [  # (command line option, ini key, environment variable, handler)
     ("pika:threads", "pika.os_threads", "PIKA_THREADS", "handle_num_threads"),
@@ -61,6 +61,8 @@ def run(rep, tier):
     rep.rule("C16.R5", "K8 (writer/reader agreement): the stack-size defaults the configuration writes (hexadecimal literals) are parsed by a reader that accepts that notation; a value that does not parse is not replaced silently by a different number")
     rep.rule("C16.R6", "K2/K8: precedence between PIKA_COMMANDLINE_OPTIONS and the command line: the two token sources are not handed to one parser run as a plain "
              "concatenation while single-valued options exist (one run rejects a repeated single-valued option instead of letting the command line win)")
+    rep.rule("C16.R10", "K8 (conflict checks vs. defaults): the check that refuses pu-step / pu-offset / affinity together with a binding description is switched off under the built-in "
+             "default of pika.bind (a valid command-line option must not be rejected because of another setting's default)")
     rep.rule("C16.R9", "K8 (environment reach): every handler's fallback reads the runtime configuration's entry for its key (where ${ENV:default} is expanded) - itself or through "
              "the default argument handle_arguments passes - not only the explicit --pika:ini entries")
     rep.rule("C16.R8", "K7/K8 (decision chain): partitioner::setup_schedulers maps the resolved pika.scheduler value to the policy of that name - each name test assigns the enum of the "
@@ -190,6 +192,32 @@ def run(rep, tier):
             rep.bad("C16.R9", h if h is not None else ha, (h if h is not None else ha).loc, "env-not-consulted:" + opt,
                     "%s falls back to cfgmap (the explicit --pika:ini entries) only: the runtime configuration's entry %s - the one the built-in defaults define as ${%s:...} - is never read, "
                     "so the environment variable %s has no effect (only --%s and --pika:ini=%s=... do)" % (hname, ini, env, env, opt, ini))
+
+    # ---- R10: a conflict check between options must not fire on a built-in default.  check_affinity_description
+    # refuses --pika:pu-step / --pika:pu-offset / --pika:affinity together with a binding description; it is switched
+    # off by its guard (the binding description is empty).  The description is resolved like every setting - command
+    # line, else configuration, else the built-in default - so the guard holds for a user who gave no --pika:bind only
+    # if the built-in default of pika.bind is empty.
+    cad = [f for f in CL.find(r"command_line_handling::check_affinity_description$") if f.parent == -1]
+    if len(cad) != 1:
+        raise AnalysisBroken("check_affinity_description not found")
+    cad = cad[0]
+    guards = [a for _, a, _ in cond_leaves(cad) if a.endswith(".empty()") and "bind" in a]
+    thr = [e for _, _, e in cad.all_events() if e.get("k") == "throw"]
+    if not guards or not thr:
+        raise AnalysisBroken("check_affinity_description: guard / conflict error not recognised")
+    dflt = []
+    for v in D.get("pika.bind", []):
+        m = re.match(r"^\$\{\w+:(.*)\}$", v.strip())
+        dflt.append(m.group(1) if m else v.strip())
+    if not dflt:
+        raise AnalysisBroken("built-in default of pika.bind not found")
+    if all(x == "" for x in dflt):
+        rep.ok("C16.R10", cad, "the conflict check is keyed on a binding description whose built-in default is empty")
+    else:
+        rep.bad("C16.R10", cad, cad.loc, "conflict-with-default:pika:bind", "check_affinity_description refuses --pika:pu-step / --pika:pu-offset / --pika:affinity whenever the resolved binding "
+                "description is not empty (%s), and the built-in default of pika.bind is '%s': the three options are rejected ('--pika:bind should not be used with ...') although the user gave no "
+                "--pika:bind - a command-line option loses against the default of another setting" % (guards[0], dflt[0]))
 
     # ---- R2
     simple = {"handle_scheduler": ("pika:scheduler", "pika.scheduler"), "handle_affinity": ("pika:affinity", "pika.affinity"),
